@@ -121,6 +121,15 @@ def run(ctx):
         targets = ['v%02d_%s' % (len(names) - k, 'q') for k in range(len(names))]
         rho = dict(zip(names, targets))
         variants = [('rename', rename_src(src, rho), rho)]
+        # names that contain one another (a, ab, abc, ... / v1, v10, v100, ...), assigned in a random order:
+        # nothing may depend on how a name is spelled, only on which name it is
+        fam = rng.choice([['a' + 'b' * k for k in range(len(names))], ['v1' + '0' * k for k in range(len(names))],
+                          ['n' * (k + 1) for k in range(len(names))], ['x', 'xx', 'x_', '_x', 'x1', 'x11', 'xy', 'yx', 'y', 'yy', 'y1', 'x_y'][:max(len(names), 1)]])
+        if len(fam) >= len(names) and not (set(fam) & (KEYWORDS | {'f', 'f0', 'f1', 'f2'})):
+            tg = list(fam[:len(names)])
+            rng.shuffle(tg)
+            rho2 = dict(zip(names, tg))
+            variants.append(('rename-nested-names', rename_src(src, rho2), rho2))
         if ' + ' in src or ' - ' in src:
             swapped = src.replace(' + ', ' \x00 ').replace(' - ', ' + ').replace(' \x00 ', ' - ')
             variants.append(('plus-minus', swapped, None))
